@@ -41,6 +41,7 @@ type Col struct {
 	Null  bool   `json:"null,omitempty"`
 	Hex   string `json:"hex,omitempty"`  // text value, hex
 	Text  string `json:"text,omitempty"` // the same, readable (informational)
+	raw   []byte // decoded Hex (cache; nil after a JSON round trip)
 }
 
 // Case is one result set: Cols is its first row, More the later rows (same column types and
@@ -66,7 +67,7 @@ func mkCol(t byte, flags uint16, val string) Col {
 	} else {
 		txt = strconv.Quote(txt)
 	}
-	return Col{Type: t, Name: bp.TypeName(t), Flags: flags, Hex: hex.EncodeToString([]byte(val)), Text: txt}
+	return Col{Type: t, Name: bp.TypeName(t), Flags: flags, Hex: hex.EncodeToString([]byte(val)), Text: txt, raw: []byte(val)}
 }
 
 func nullCol(t byte, flags uint16) Col {
@@ -74,6 +75,9 @@ func nullCol(t byte, flags uint16) Col {
 }
 
 func (c Col) value() []byte {
+	if c.raw != nil || c.Hex == "" {
+		return c.raw
+	}
 	b, err := hex.DecodeString(c.Hex)
 	if err != nil {
 		ev.Fatalf("bad hex in case: %v", err)
@@ -587,13 +591,14 @@ type colSpec struct {
 	t     byte
 	flags uint16
 	vals  []string
+	cells []Col // mkCol of vals, built once
 }
 
 func (cs colSpec) cell(row int, null bool) Col {
 	if null {
 		return nullCol(cs.t, cs.flags)
 	}
-	return mkCol(cs.t, cs.flags, cs.vals[row%len(cs.vals)])
+	return cs.cells[row%len(cs.cells)]
 }
 
 // setsOver returns every result set of exactly nRows rows over the field list: every cell of
@@ -635,7 +640,11 @@ func multiRowSets(r *ev.Run, types []typeSpec) []Case {
 				fl = fUnsigned
 			}
 		}
-		specs = append(specs, colSpec{t: s.t, flags: fl, vals: s.reps})
+		cs := colSpec{t: s.t, flags: fl, vals: s.reps}
+		for _, v := range s.reps {
+			cs.cells = append(cs.cells, mkCol(s.t, fl, v))
+		}
+		specs = append(specs, cs)
 	}
 	r.Set("multi_row_column_specs", len(specs))
 	var cases []Case
